@@ -75,11 +75,12 @@ class _InMemoryConsumer(ConsumerT):
             msg = self._queue.simple.get_nowait()
         except asyncio.QueueEmpty:
             return None
+        if self.topics and msg.key.topic not in self.topics:  # topics don't match
+            # (checked first: a message of a foreign topic is left alone, expired or not)
+            self._queue.simple.put_nowait(msg)
+            return None
         if msg.parameters.is_overdue:  # ttl expired
             self._queue.dead.append(msg)
-            return None
-        if self.topics and msg.key.topic not in self.topics:  # topics don't match
-            self._queue.simple.put_nowait(msg)
             return None
         return msg
 
